@@ -10,7 +10,9 @@ tie:    M is extracted to OCaml and run beside GEOSProject(Normalized)_r / GEOSI
         GEOSUnaryUnion_r, GEOSLineMerge(Directed)_r, GEOSPolygonize_full_r (+ _r, _valid_r, getCutEdges, BuildArea),
         GEOSSharedPaths_r.  The property clauses on linear referencing are also decided directly (Fractions) on the outputs.
 """
-import json, math, os, random
+import json, math, os, random, sys
+if hasattr(sys, 'set_int_max_str_digits'):
+    sys.set_int_max_str_digits(0)          # the model's rationals are printed unreduced
 from fractions import Fraction as Fr
 from vlib.core import ROOT, BUILD
 
@@ -620,6 +622,9 @@ def fix_case(c):
             c[k] = [[tuple(p) for p in l] for l in c[k]]
     if 'pt' in c:
         c['pt'] = tuple(c['pt'])
+    for k in ('d', 's', 'e'):
+        if k in c and isinstance(c[k], str):
+            c[k] = Fr(c[k])
     return c
 
 
